@@ -1,5 +1,137 @@
-//! placeholder, filled in by the corresponding check
-pub fn main(_rest: &[String]) -> i32 {
-    eprintln!("not implemented");
-    2
+//! `search <jobs.ndjson> <events-out>`: runs sessions of searches on one PersistentState each and
+//! records, per search, what a GUI could observe (info lines, best move) plus hook observations
+//! (number of stop-flag loads, whether the caller's game was left untouched).
+//!
+//! Job line: {"hash": MB, "tag": "...", "searches": [ {"pos": {b,stm,cr,ep,hmc,pl}, "moves": [packed...],
+//!   "depth": d|null, "movetime": ms|null, "wtime": ms|null, "btime":..., "winc":..., "binc":..., "mtg": n|null,
+//!   "stopk": k, "newgame": bool} ]}
+use crate::chess::game::Game;
+use crate::chess::moves::Move;
+use crate::engine::options::EngineOptions;
+use crate::engine::search::time_control::TimeStrategy;
+use crate::engine::search::{self, Clocks, PersistentState, Reporter, SearchInfo, SearchRestrictions, SearchScore, TimeControl};
+use crate::engine::util::verif;
+use crate::proj;
+use serde_json::{json, Map, Value};
+use std::io::{BufRead, Write};
+use std::time::{Duration, Instant};
+
+struct Collect {
+    infos: Vec<Value>,
+}
+
+impl Reporter for Collect {
+    fn generic_report(&self, _: &str) {}
+
+    fn report_search_progress(&mut self, _: &Game, p: SearchInfo) {
+        let (sk, sv) = match p.score {
+            SearchScore::Centipawns(c) => ("cp", c),
+            SearchScore::Mate(m) => ("mate", m),
+        };
+        let pv: Vec<String> = p.pv.clone().into_iter().map(|m| format!("{m:?}")).collect();
+        self.infos.push(json!({"d": p.depth, "sd": p.seldepth, "sk": sk, "sv": sv, "pv": pv,
+            "nodes": p.stats.nodes, "hashfull": p.hashfull}));
+    }
+
+    fn best_move(&self, _: &Game, _: Move) {}
+}
+
+fn dur(v: &Value) -> Option<Duration> {
+    v.as_u64().map(Duration::from_millis)
+}
+
+pub fn main(rest: &[String]) -> i32 {
+    let f = std::io::BufReader::new(std::fs::File::open(&rest[0]).unwrap());
+    let mut out = std::io::BufWriter::new(std::fs::File::create(&rest[1]).unwrap());
+    for (si, line) in f.lines().enumerate() {
+        let line = line.unwrap();
+        if line.trim().is_empty() {
+            continue;
+        }
+        let job: Value = serde_json::from_str(&line).unwrap();
+        let hash = job["hash"].as_u64().unwrap_or(1) as usize;
+        let tag = job["tag"].as_str().unwrap_or("").to_string();
+        let mut options = EngineOptions::default();
+        options.hash_size = hash;
+        if let Some(o) = job["overhead"].as_u64() {
+            options.move_overhead = o as usize;
+        }
+        let mut ps = match std::panic::catch_unwind(|| PersistentState::new(hash)) {
+            Ok(p) => p,
+            Err(_) => {
+                writeln!(out, "{}", json!({"session": si, "tag": tag, "out": "panic", "msg": "PersistentState::new"})).unwrap();
+                continue;
+            }
+        };
+        for (qi, s) in job["searches"].as_array().unwrap().iter().enumerate() {
+            let mut game = proj::game_from_fields(&s["pos"]);
+            if let Some(ms) = s["moves"].as_array() {
+                for m in ms {
+                    let mv = proj::find_move(&game, m.as_i64().unwrap()).expect("job move not legal");
+                    game.make_move(mv);
+                }
+            }
+            if s["newgame"].as_bool().unwrap_or(false) {
+                ps.reset();
+            }
+            let depth = s["depth"].as_u64().map(|d| d as u8);
+            let mut tc = TimeControl::Infinite;
+            if let Some(mt) = dur(&s["movetime"]) {
+                tc = TimeControl::ExactTime(mt);
+            }
+            if !s["wtime"].is_null() || !s["btime"].is_null() {
+                tc = TimeControl::Clocks(Clocks {
+                    white_clock: dur(&s["wtime"]),
+                    black_clock: dur(&s["btime"]),
+                    white_increment: dur(&s["winc"]),
+                    black_increment: dur(&s["binc"]),
+                    moves_to_go: s["mtg"].as_u64().map(|x| x as u32),
+                });
+            }
+            let before = proj::full(&game);
+            let hist_before = game.history.len();
+            let stopk = s["stopk"].as_i64().unwrap_or(0);
+            let mut rep = Collect { infos: Vec::new() };
+            let started = Instant::now();
+            verif::set_stop_at_poll(stopk);
+            let res = std::panic::catch_unwind(std::panic::AssertUnwindSafe(|| {
+                let (mut ts, _control) = TimeStrategy::new(&game, &tc, &options);
+                let restr = SearchRestrictions { depth };
+                search::search(&game, &mut ps, &mut ts, &restr, &options, &mut rep)
+            }));
+            let polls = verif::polls();
+            verif::set_stop_at_poll(0);
+            let elapsed = started.elapsed();
+            let mut ev: Map<String, Value> = proj::position(&game);
+            ev.insert("fen".into(), json!(game.to_fen()));
+            ev.insert("session".into(), json!(si));
+            ev.insert("idx".into(), json!(qi));
+            ev.insert("tag".into(), json!(tag));
+            ev.insert("hash".into(), json!(hash));
+            ev.insert("lim".into(), json!(depth.unwrap_or(0)));
+            ev.insert("stopk".into(), json!(stopk));
+            ev.insert("polls".into(), json!(polls));
+            ev.insert("ms".into(), json!(elapsed.as_millis() as u64));
+            ev.insert("infos".into(), json!(rep.infos));
+            ev.insert("gen".into(), json!(ps.tt.generation));
+            let after = proj::full(&game);
+            ev.insert("untouched".into(), json!(before == after && hist_before == game.history.len()));
+            match res {
+                Ok(mv) => {
+                    ev.insert("out".into(), json!("move"));
+                    ev.insert("best".into(), json!(format!("{mv:?}")));
+                    ev.insert("msg".into(), json!(""));
+                }
+                Err(_) => {
+                    let msg = crate::LAST_PANIC.lock().unwrap().replace('\n', " ");
+                    ev.insert("out".into(), json!("panic"));
+                    ev.insert("best".into(), json!(""));
+                    ev.insert("msg".into(), json!(msg));
+                }
+            }
+            writeln!(out, "{}", Value::Object(ev)).unwrap();
+            out.flush().unwrap();
+        }
+    }
+    0
 }
